@@ -25,12 +25,14 @@ const (
 
 // Access is one read/write of a field of the receiver.
 type Access struct {
-	Field string
-	Write bool
-	Held  int
-	Pos   token.Pos
-	Alias bool // the access goes through a local that was assigned the (map-typed) field: m := this.m ... m[k]
-	Elem  bool // a write to an element (this.m[k] = v) rather than a replacement of the field
+	Field    string
+	Write    bool
+	Held     int
+	Pos      token.Pos
+	Alias    bool // the access goes through a local that was assigned the (map-typed) field: m := this.m ... m[k]
+	Elem     bool // a write to an element (this.m[k] = v) rather than a replacement of the field
+	NodeCall bool // ... touched by a method of the node called here
+	Node     bool // a field of one of the collection's nodes (list entity, hash entry), reached through any expression
 }
 
 // CallSite is one call of a method of the same type on the same receiver.
@@ -50,7 +52,7 @@ type FuncLocks struct {
 	Accesses  []Access
 	Calls     []CallSite
 	PeerCalls []CallSite // calls on another instance of the receiver's type
-	Unpaired  []string // problems: exit with lock held, unlock without lock, state differs between paths
+	Unpaired  []string   // problems: exit with lock held, unlock without lock, state differs between paths
 	EntryHeld bool
 	Waits     []WaitSite
 	FuncCalls []FieldCall // calls through function-typed fields (callbacks) with held state
@@ -80,7 +82,7 @@ type TypeLocks struct {
 	Type        *types.Named
 	LockField   string
 	LockPath    []string // LockField, or the path through a monitor struct (mon, cond)
-	CondLock    bool // the mutex is reached through a *sync.Cond field (f.L)
+	CondLock    bool     // the mutex is reached through a *sync.Cond field (f.L)
 	Funcs       map[*types.Func]*FuncLocks
 	Order       []*FuncLocks
 	Fields      []string
@@ -165,8 +167,37 @@ func FindLockPath(t *types.Named) (path []string, cond bool) {
 }
 
 type analyzer struct {
-	p  *core.Program
-	tl *TypeLocks
+	p     *core.Program
+	tl    *TypeLocks
+	nodes map[*types.TypeName]bool // struct types of the package the collection's fields point to (list nodes, hash entries)
+}
+
+// nodeTypesOf: the named struct types of t's own package that t's fields refer to through a pointer
+// (first/last *Entity) or a slice of pointers (table []*Entry): the nodes the collection is made of.
+func nodeTypesOf(t *types.Named) map[*types.TypeName]bool {
+	out := map[*types.TypeName]bool{}
+	st, ok := t.Underlying().(*types.Struct)
+	if !ok {
+		return out
+	}
+	for i := 0; i < st.NumFields(); i++ {
+		ft := st.Field(i).Type()
+		if sl, ok := ft.Underlying().(*types.Slice); ok {
+			ft = sl.Elem()
+		}
+		pt, ok := ft.(*types.Pointer)
+		if !ok {
+			continue
+		}
+		n, ok := pt.Elem().(*types.Named)
+		if !ok || n.Obj().Pkg() != t.Obj().Pkg() || n == t {
+			continue
+		}
+		if _, isStruct := n.Underlying().(*types.Struct); isStruct {
+			out[n.Obj()] = true
+		}
+	}
+	return out
 }
 
 // Analyze runs the per-method dataflow for all methods of t (iterating held-at-entry to a fixpoint).
@@ -190,7 +221,7 @@ func AnalyzeWith(p *core.Program, t *types.Named, pkgLock types.Object) *TypeLoc
 			tl.Fields = append(tl.Fields, st.Field(i).Name())
 		}
 	}
-	a := &analyzer{p: p, tl: tl}
+	a := &analyzer{p: p, tl: tl, nodes: nodeTypesOf(t)}
 	methods := p.MethodsOf(t)
 	sort.Slice(methods, func(i, j int) bool { return methods[i].Decl.Pos() < methods[j].Decl.Pos() })
 	entry := map[*types.Func]bool{}
@@ -488,6 +519,35 @@ func (a *analyzer) analyzeFunc(fi *core.FuncInfo, entryHeld bool) *FuncLocks {
 								r.waits = append(r.waits, ws)
 							}
 						}
+						// a method of one of the collection's nodes (x.ToString()): it touches the node's
+						// fields on the caller's behalf
+						if fn, ok := info.Uses[sel.Sel].(*types.Func); ok && len(a.nodes) > 0 {
+							if tv, ok := info.Types[sel.X]; ok {
+								xt := tv.Type
+								if pt, ok := xt.(*types.Pointer); ok {
+									xt = pt.Elem()
+								}
+								if n, ok := xt.(*types.Named); ok && a.nodes[n.Obj()] {
+									if mfi := a.p.FuncOf(fn); mfi != nil && mfi.Decl.Body != nil && mfi.Decl.Recv != nil && len(mfi.Decl.Recv.List) > 0 && len(mfi.Decl.Recv.List[0].Names) > 0 {
+										mrecv := mfi.Pkg.TypesInfo.Defs[mfi.Decl.Recv.List[0].Names[0]]
+										touched := map[string]bool{}
+										ast.Inspect(mfi.Decl.Body, func(k ast.Node) bool {
+											if ms, ok := k.(*ast.SelectorExpr); ok {
+												if mid, ok := ast.Unparen(ms.X).(*ast.Ident); ok && mfi.Pkg.TypesInfo.ObjectOf(mid) == mrecv {
+													if fv, ok := mfi.Pkg.TypesInfo.Uses[ms.Sel].(*types.Var); ok && fv.IsField() {
+														touched[fv.Name()] = true
+													}
+												}
+											}
+											return true
+										})
+										for f := range touched {
+											r.accesses = append(r.accesses, Access{Field: "node:" + n.Obj().Name() + "." + f, Held: st.held, Pos: v.Pos(), Node: true, NodeCall: true})
+										}
+									}
+								}
+							}
+						}
 						// same-receiver method call
 						// a method of ANOTHER instance of the receiver's type (other.Entries() inside
 						// this.PutAll(other)): with this instance's mutex held it deadlocks when the two are
@@ -513,6 +573,18 @@ func (a *analyzer) analyzeFunc(fi *core.FuncInfo, entryHeld bool) *FuncLocks {
 					if id, ok := ast.Unparen(v.X).(*ast.Ident); ok && info.ObjectOf(id) == recv {
 						if fv, ok := info.Uses[v.Sel].(*types.Var); ok && fv.IsField() && fv.Name() != a.tl.LockField {
 							r.accesses = append(r.accesses, Access{Field: fv.Name(), Write: writes[v], Held: st.held, Pos: v.Pos(), Elem: elemWrites[v]})
+						}
+					} else if fv, ok := info.Uses[v.Sel].(*types.Var); ok && fv.IsField() && len(a.nodes) > 0 {
+						// a field of one of the collection's nodes (x.Value, e.next): the nodes are shared
+						// state of the collection just like its own fields
+						if tv, ok := info.Types[v.X]; ok {
+							xt := tv.Type
+							if pt, ok := xt.(*types.Pointer); ok {
+								xt = pt.Elem()
+							}
+							if n, ok := xt.(*types.Named); ok && a.nodes[n.Obj()] {
+								r.accesses = append(r.accesses, Access{Field: "node:" + n.Obj().Name() + "." + fv.Name(), Write: writes[v], Held: st.held, Pos: v.Pos(), Node: true})
+							}
 						}
 					}
 				case *ast.Ident:
